@@ -22,8 +22,11 @@ def term_kinds():
     A = peval.A
     k = {
         "numeral+": (A("Term", "PrecomputedTerm", **{"0": A("PrecomputedTerm", "Numeral", **{"0": ("int", 5)})}), "leaf", None),
+        "numeral+1": (A("Term", "PrecomputedTerm", **{"0": A("PrecomputedTerm", "Numeral", **{"0": ("int", 1)})}), "leaf", None),      # the smallest positive numeral: a range pattern `2..` would miss it
+        "numeral+big": (A("Term", "PrecomputedTerm", **{"0": A("PrecomputedTerm", "Numeral", **{"0": ("int", 9223372036854775807)})}), "leaf", None),
         "numeral0": (A("Term", "PrecomputedTerm", **{"0": A("PrecomputedTerm", "Numeral", **{"0": ("int", 0)})}), "leaf", None),
         "numeral-": (A("Term", "PrecomputedTerm", **{"0": A("PrecomputedTerm", "Numeral", **{"0": ("int", -5)})}), "leaf", None),
+        "numeral-1": (A("Term", "PrecomputedTerm", **{"0": A("PrecomputedTerm", "Numeral", **{"0": ("int", -1)})}), "leaf", None),
         "symbol": (A("Term", "PrecomputedTerm", **{"0": A("PrecomputedTerm", "Symbol", **{"0": ("str", "a")})}), "leaf", None),
         "infimum": (A("Term", "PrecomputedTerm", **{"0": A("PrecomputedTerm", "Infimum")}), "leaf", None),
         "variable": (A("Term", "Variable"), "leaf", None),
@@ -115,7 +118,7 @@ def rule_tokens(ctx):
 
 def leaf_hazard(pk, ck, pos):
     # `-` directly followed by a positive numeral lexes as one negative numeral
-    return pk == "negative" and ck == "numeral+"
+    return pk == "negative" and ck.startswith("numeral+")
 
 
 def rule_precedence(ctx):
